@@ -268,6 +268,64 @@ def maxsimp(ctx, p):
     ctx.require(type(R) is xgi.Hypergraph, "from_max_simplices does not return a Hypergraph")
 
 
+@harness("C19.maxsimp_ids", raises_are_violations=True)
+def maxsimp_ids(ctx, p):
+    """from_max_simplices when simplex ids differ from list positions (ids in a
+    window so that a list indexed by an id is reachable by exhaustive forking)."""
+    N, M, edges = _shape(p["shape"])
+    nl = [ctx.label(f"n{i}", group="n") for i in range(N)]
+    ctx.distinct(nl)
+    el = [ctx.int(f"e{j}", -2, 5, kind="L", group="e") for j in range(M)]
+    ctx.distinct(el)
+    S = xgi.SimplicialComplex()
+    for n in nl:
+        S._node[n] = set()
+        S._node_attr[n] = {}
+    for j in range(M):
+        S._edge[el[j]] = frozenset(nl[i] for i in edges[j])
+        S._edge_attr[el[j]] = {}
+        for i in edges[j]:
+            S._node[nl[i]].add(el[j])
+    S._edge_uid = ctx.counter(6)
+    ctx.info["op"] = "from_max_simplices (ids != positions)"
+    ctx.info["args"] = {"ids": el}
+    R = xgi.from_max_simplices(S)
+    vals = [set(m) for m in S._edge.values()]
+    want = [v for v in vals if not any(w is not v and len(w) > len(v) and all(x in w for x in v) for w in vals)]
+    ctx.require(multiset_eq([set(m) for m in R._edge.values()], want), "from_max_simplices does not keep exactly the maximal simplices")
+
+
+LABEL_POOL = [(0, 0), (0, 1), "a", 3, "b", (1, 0)]
+
+
+@harness("C19.complement_labels", raises_are_violations=True)
+def complement_labels(ctx, p):
+    """complement with tuple / string / mixed node labels (every injective assignment)."""
+    N, M, edges = _shape(p["shape"])
+    if M == 0:
+        ctx.assume(False)
+    pool = list(LABEL_POOL)
+    nl = [pool.pop(ctx.choose(f"lab{i}", len(pool))) for i in range(N)]
+    ctx.info["op"] = "complement (label types)"
+    ctx.info["args"] = {"labels": nl}
+    import warnings as _w
+    from .. import stubs as _stubs
+
+    with _stubs.uninstalled(), _w.catch_warnings():
+        _w.simplefilter("ignore")
+        H = xgi.Hypergraph()
+        H.add_nodes_from(nl)
+        for e in edges:
+            H.add_edge([nl[i] for i in e])
+        R = xgi.complement(H)
+    mx = max(len(e) for e in edges)
+    present = [frozenset(nl[i] for i in e) for e in edges]
+    want = sorted((frozenset(c) for k in range(1, mx + 1) for c in itertools.combinations(nl, k) if frozenset(c) not in present), key=lambda f: sorted(map(str, f)))
+    got = sorted((frozenset(m) for m in R._edge.values()), key=lambda f: sorted(map(str, f)))
+    ctx.require(got == want, "complement does not hold exactly the absent node sets up to the maximum size")
+    ctx.require(list(R._node) == nl, "complement changed the node set")
+
+
 @harness("C19.lcc", raises_are_violations=True)
 def lcc(ctx, p):
     H = nets.build_H(ctx, _shape(p["shape"]), attrs=True)[0]
@@ -311,10 +369,14 @@ def spec(tier, seed):
             units.append((f"C19.{h}", {"shape": s, "cls": "H"}))
     for s in comp:
         units.append(("C19.complement", {"shape": s, "cls": "H"}))
+        if s[0] <= 3 and s[1] <= 2 and all(len(e) > 0 for e in s[2]):
+            units.append(("C19.complement_labels", {"shape": s, "cls": "H"}))
     for s in shS:
         units.append(("C19.relabel", {"shape": s, "cls": "S"}))
         units.append(("C19.cut", {"shape": s, "cls": "S"}))
         units.append(("C19.maxsimp", {"shape": s, "cls": "S"}))
+        if 0 < s[1] <= 7:
+            units.append(("C19.maxsimp_ids", {"shape": s, "cls": "S"}))
     for s in shD:
         units.append(("C19.relabel", {"shape": s, "cls": "D"}))
     for s in small:
